@@ -10,7 +10,7 @@ EXPLANATION = (
     "panic/unreachable/assert, unwrap/expect, MIR Assert for bounds/div-zero/overflow, panicking library APIs by class) must be "
     "discharged by a guard the checker re-derives on every run (dominating is_some/match, constant ranges, byte-budget dataflow over "
     "decoders, tokio::select! branch analysis) or by a reasoned table entry whose anchor is re-checked; anything else is a finding. "
-    "Plus U1 (unbounded accumulation primitives on peer streams) and REC (recursion SCCs). Decides the absence of these structural panic/wedge "
+    "String slices additionally need character-boundary bounds. Plus U1 (unbounded accumulation primitives on peer streams) and REC (recursion SCCs). Decides the absence of these structural panic/wedge "
     "sources, not the behaviour of dependencies.")
 RULE_TEXT = "instances = panic edges in scope + wedge sites; non-trivial = edges that needed a guard, budget or table argument"
 TRUSTED = ["rustc MIR construction and type checking", "dependency crates do not panic on valid arguments",
